@@ -81,3 +81,27 @@ class ReboundPort(wiring.Component):
 
     def elaborate(self, platform):
         return Module()
+
+
+class Guarded:
+    def __init__(self):
+        self._limit = None
+
+    @property
+    def limit(self):
+        return self._limit
+
+    @limit.setter
+    def limit(self, limit):
+        if not isinstance(limit, int):
+            raise TypeError("limit must be an integer")
+        self._limit = limit
+
+
+class Bypasser(wiring.Component):
+    def __init__(self, guarded, limit):
+        super().__init__({"bus": In(1)})
+        guarded._limit = limit                  # the setter's check is skipped
+
+    def elaborate(self, platform):
+        return Module()
